@@ -1171,6 +1171,156 @@ def oracle_idle_promptness(case, impl):
     return hits
 
 
+def oracle_read_content(case, impl):
+    """C01/C03, receive side of one connection: what the application reads is a prefix of the byte stream the
+    scripted peer sent (payloads in sequence-number order, each number once), and a clean end-of-stream comes only
+    after every byte that preceded the peer's FIN has been read."""
+    tr = Trace(case, impl)
+    hits = []
+    payloads, fins, start, got, judged = {}, set(), None, b"", True
+    for ev in tr.events:
+        if ev["op"] == "new":
+            o = ev["opts"]
+            rem = int(o.get("rem", 1))
+            start = rem if o["dir"] == "out" else (rem + 1) % 65536
+            payloads, fins, got, judged = {}, set(), b"", True
+        if not judged or start is None:
+            continue
+        if ev["op"] == "inject" and "dgram" in ev:
+            d = ev["dgram"]
+            if d["type"] == 0 and d["plen"] > 0:
+                if d["seq"] in payloads and payloads[d["seq"]] != d["payload"]:
+                    judged = False          # the peer sent two different payloads under one number: not judged
+                payloads.setdefault(d["seq"], d["payload"])
+            elif d["type"] == 1 and d["plen"] == 0:
+                fins.add(d["seq"])
+            if fins & set(payloads):
+                judged = False              # one number used for data and for a FIN: which one counts depends on order
+                continue
+        if ev["op"] != "read" or ev["args"] == ["0"]:
+            continue
+        stream, q = b"", start
+        while q in payloads and len(stream) < len(got) + (1 << 22) and q not in fins:
+            stream += payloads[q]
+            q = (q + 1) % 65536
+        out = ev["out"].split()[0] if ev["out"] else ""
+        if out.startswith("data:"):
+            got += bytes.fromhex(out[5:])
+            if not stream.startswith(got):
+                k = next((i for i in range(min(len(got), len(stream))) if got[i] != stream[i]), min(len(got), len(stream)))
+                hits.append({"sig": {"oracle": "read_content", "what": "reader_got_bytes_the_peer_did_not_send_there"},
+                             "text": f"`{ev['line']}`: after {len(got)} bytes read, the reader's stream differs from the peer's at offset {k} (the peer's in-order stream so far has {len(stream)} bytes)"})
+                return hits
+        elif out == "eof":
+            if q in fins and len(got) < len(stream):
+                hits.append({"sig": {"oracle": "read_content", "what": "eof_before_all_bytes"},
+                             "text": f"`{ev['line']}` returned end-of-stream after {len(got)} bytes although {len(stream)} bytes preceded the peer's FIN (seq {q})"})
+                return hits
+    return hits
+
+
+def oracle_rx_honesty(case, impl):
+    """C04 at the connection level: every selective-ACK bit names a packet the peer really sent, and the advertised
+    window never exceeds the receive buffer minus the bytes this endpoint has itself acknowledged in order and the
+    application has not read yet."""
+    tr = Trace(case, impl)
+    hits = []
+    have, plen_of, start, read_total, rx, fin_seqs = set(), {}, None, 0, 1 << 20, set()
+    for ev in tr.events:
+        if ev["op"] == "new":
+            o = ev["opts"]
+            rem = int(o.get("rem", 1))
+            start = rem if o["dir"] == "out" else (rem + 1) % 65536
+            have, plen_of, read_total, fin_seqs = set(), {}, 0, set()
+            try:
+                rx = int(o.get("rx", 1 << 20))
+            except ValueError:
+                rx = 1 << 20
+        if start is None:
+            continue
+        if ev["op"] == "inject" and "dgram" in ev and ev["dgram"]["type"] in (0, 1):
+            d = ev["dgram"]
+            have.add(d["seq"])
+            if d["type"] == 0 and d["seq"] in plen_of and plen_of[d["seq"]] != d["plen"]:
+                return hits             # same number, different sizes: not judged
+            if d["type"] == 0:
+                plen_of[d["seq"]] = d["plen"]
+            else:
+                fin_seqs.add(d["seq"])
+            if fin_seqs & set(plen_of):
+                return hits             # one number used for data and for a FIN: not judged
+        if ev["op"] == "read" and ev["out"].startswith("data:"):
+            read_total += (len(ev["out"].split()[0]) - 5) // 2
+        if ev["op"] != "poll" or "dgrams" not in ev:
+            continue
+        for d in ev["dgrams"]:
+            if d["sack"] is not None:
+                raw = (bytes(d["sack"]) + bytes(8))[:8]
+                for b in range(64):
+                    if raw[b // 8] >> (b % 8) & 1 and (d["ack"] + 2 + b) % 65536 not in have:
+                        hits.append({"sig": {"oracle": "rxhonest", "what": "sack_bit_for_packet_never_sent"},
+                                     "text": f"emitted selective ACK (ack_nr {d['ack']}) sets bit {b}: sequence number {(d['ack'] + 2 + b) % 65536}, which the peer never sent"})
+                        return hits
+            # bytes acknowledged in order by this very datagram and not read yet are certainly held
+            held, q, n = 0, start, 0
+            while _md(d["ack"], q) >= 0 and n < 70000:
+                held += plen_of.get(q, 0)
+                q = (q + 1) % 65536
+                n += 1
+            # (the message the application is in the middle of reading has left the buffer's accounting as a whole:
+            # up to one message of slack)
+            held = max(0, held - read_total - (max(plen_of.values()) if plen_of else 0))
+            if d["type"] != 4 and d["wnd"] > max(0, rx - held):
+                hits.append({"sig": {"oracle": "rxhonest", "what": "window_overstates_free_space"},
+                             "text": f"datagram with ack_nr {d['ack']} advertises a window of {d['wnd']} bytes, but the receive buffer is {rx} bytes and {held} acknowledged bytes have not been read by the application yet"})
+                return hits
+    return hits
+
+
+def oracle_rto_backoff(case, impl):
+    """C06/C16 at the connection level: each retransmission timeout of an ordinary segment doubles the RTO (up to
+    60 s) as long as no new RTT sample arrives."""
+    tr = Trace(case, impl)
+    hits = []
+    prev, mss_before, probes, seen, first_tx = None, None, set(), set(), set()
+    for ev in tr.events:
+        first_tx = set()
+        if ev["op"] == "new":
+            prev, probes, seen = None, set(), set()
+            try:
+                mss_before = int(ev["out"].split("min_ss=")[1].split(":")[0])
+            except (IndexError, ValueError):
+                mss_before = None
+        if ev["op"] != "poll" or "fp" not in ev:
+            continue
+        fp = ev["fp"]
+        try:
+            cur = (int(fp.get("rtor", 0)), int(fp.get("rto", 0)), fp.get("rtt"), int(fp.get("ss", "min_ss=0:").split("min_ss=")[1].split(":")[0]))
+        except (ValueError, IndexError):
+            prev = None
+            continue
+        # a segment is a size probe (its timeouts do not count as real ones) if it was larger than the proven size
+        # when it was created
+        # (the flag is set when the segment is CREATED, which may be long before its first transmission; the proven
+        # size only grows, so a segment no larger than the size proven at connection start is certainly ordinary)
+        for d in ev.get("dgrams", []):
+            if d["type"] == 0 and d["seq"] not in seen:
+                seen.add(d["seq"])
+                first_tx.add(d["seq"])
+                if mss_before is None or d["plen"] > mss_before:
+                    probes.add(d["seq"])
+        if prev is not None and ev["res"].startswith("pending") and cur[0] == prev[0] + 1 and cur[2] == prev[2]:
+            resent = [d for d in ev.get("dgrams", []) if d["type"] == 0]
+            if resent and not any(d["seq"] in probes or d["seq"] in first_tx for d in resent) and not any(d["type"] == 1 for d in ev.get("dgrams", [])):
+                want = min(2 * prev[1], 60_000_000_000)
+                if cur[1] != want:
+                    hits.append({"sig": {"oracle": "rto_backoff", "what": "timeout_did_not_double_the_rto"},
+                                 "text": f"poll at t={ev['t']} ns: retransmission timeout #{cur[0]} of an ordinary segment left the RTO at {cur[1]} ns; it was {prev[1]} ns, so {want} ns is owed"})
+                    return hits
+        prev = cur
+    return hits
+
+
 def oracle_eof_honest(case, impl):
     """C03: a reader sees a clean end-of-stream only after the peer's FIN: never when no FIN was ever received
     (connection aborted, channel from the socket lost, cancelled): then reads must report an error."""
@@ -1327,6 +1477,9 @@ def oracle_window_reopen(case, impl):
 
 
 ALL = {
+    "read_content": oracle_read_content,
+    "rx_honesty": oracle_rx_honesty,
+    "rto_backoff": oracle_rto_backoff,
     "idle_promptness": oracle_idle_promptness,
     "completion_honest": oracle_completion_honest,
     "inactivity_discipline": oracle_inactivity_discipline,
